@@ -123,7 +123,7 @@ class Script:
 
 def ser_op(s, sid):
     rng = s.rng
-    nv = rng.choice([0, 1, 3, 10, 25, 60])
+    nv = rng.choice([0, 1, 3, 10, 25, 60]) if getattr(s, "stage", "") != "deep" else rng.choice([60, 150, 400])
     vals = gen_values(rng, s.ty, nv)
     return "ser %d %s %s" % (sid, coins_for(rng, s.fam, s.const), " ".join(vals))
 
@@ -211,10 +211,28 @@ def kll_empty_level0_histories(rng, check, tier, count=6):
     return hs
 
 
+def req_deep_histories(rng, check, tier):
+    """REQ with a k whose section size has already shrunk several times (level 0 compacted >= 4 times): the image stores the section size
+    only as a float and the reader re-derives the integer, so restore-and-continue must be exercised where rounding matters
+    (k/sqrt(2)^j not near an even integer: k = 30, 50, ...), with enough further updates to reach the next compactions"""
+    hs = []
+    for k in ([30, 50] if tier == "quick" else [30, 50, 22, 36, 70, 100]):
+        for hra in (0, 1):
+            s = Script(rng, "req", rng.choice(["f32", "f64"]) if "f32" in TYPES else rng.choice(TYPES), check, tier)
+            s.new(0, k, hra)
+            for n in (2000, 900, 1400):
+                s.upd(0, n)
+                s.chk(0, "deep")
+            hs.append(s.lines)
+    return hs
+
+
 def generate_for(fam, check, rng, tier, nrand=None):
     hs = anchor_histories(fam, check, rng, tier)
     if fam == "kll":
         hs += kll_empty_level0_histories(rng, check, tier, 6 if tier == "quick" else 30)
+    if fam == "req" and check is ser_op:      # (C09 only: the prefix / corruption sweeps of C11 would take minutes on images this large)
+        hs += req_deep_histories(rng, check, tier)
     n = nrand if nrand is not None else (24 if tier == "quick" else 300)
     for _ in range(n):
         hs.append(random_history(rng, fam, check, tier))
